@@ -69,7 +69,7 @@ func verifC19Payload(n uint32) []byte {
 
 func verifC19NewFix(t *testing.T, withNodeDID bool) *verifC19Fix {
 	verifC19Seq++
-	dir := filepath.Join(os.TempDir(), fmt.Sprintf("c19v2-%d", verifC19Seq))
+	dir := filepath.Join(os.TempDir(), fmt.Sprintf("c19v2-%d-%d", os.Getpid(), verifC19Seq))
 	_ = os.MkdirAll(dir, 0o755)
 	db, err := bbolt.CreateBBoltStore(filepath.Join(dir, "dag.db"), stoabs.WithNoSync())
 	if err != nil {
